@@ -90,7 +90,7 @@ def h_local_term(rp, l, o):
 
 def h_swap(rp, l, o):
     hm.quiet(rp.psi.swap_sites, l['i'])
-    return dict(sig=dict(fermionic=rp.psi.sites[l['i']].__class__.__name__ == 'FermionSite'))
+    return dict(sig=dict(fermionic=bool(np.any(rp.psi.sites[l['i']].JW_exponent))))
 
 
 def h_permute(rp, l, o):
